@@ -187,7 +187,35 @@ def hist_to_scenario(hist, sid, rnd, source, via_mode=None):
 
 # ---------------------------------------------------------------------------------------------
 
+def run_replay(prop, replay):
+    """Re-run one stored scenario (a replay file written by an earlier run) through driver and validator."""
+    out = vlib.Outcome(prop)
+    case = json.load(open(replay)).get("case", {})
+    if "scenario" not in case:
+        raise vlib.ToolError("replay file holds no history scenario (name-grammar findings are re-enumerated by a normal run)")
+    binary, _ = vlib.harness_build("vh_refs")
+    wd = vlib.workdir(f"{prop}-replay")
+    scn = dict(case["scenario"], id=1)
+    with open(os.path.join(wd, "scn.ndjson"), "w") as f:
+        f.write(json.dumps(scn) + "\n")
+    tf = os.path.join(wd, "trace.ndjson")
+    vlib.harness_run(binary, ["--mode", "hist", "--scenarios", os.path.join(wd, "scn.ndjson"), "--out", tf,
+                              "--scratch", os.path.join(wd, "scratch")])
+    v = vlib.tlc_trace(f"{prop}-replay", "Trace_LanceRefs", TRACE_CFG.format(mode="hist"), tf, timeout=600, xmx="4g")
+    if not v["reports"] or not v["accepted"]:
+        raise vlib.ToolError(f"replay trace validation did not complete: {v['out']}")
+    lines = open(tf).read().splitlines()
+    for pos, _, i, opn, inv, cls in v["reports"][-1]["bad"]:
+        ev = json.loads(lines[pos - 1])
+        out.report({"invariant": inv, "op": opn, "class": cls},
+                   f"{inv} violated by {opn} {cls} (step {i}: {json.dumps(ev['step'])} -> {ev['res']})",
+                   {"scenario": scn, "step": i, "invariant": inv, "trace": tf})
+    return out.finish()
+
+
 def run(prop, tier, replay):
+    if replay:
+        return run_replay(prop, replay)
     t0 = time.time()
     rnd = random.Random(vlib.seed())
     out = vlib.Outcome(prop)
@@ -205,15 +233,21 @@ def run(prop, tier, replay):
     ]
     pool = cf.ThreadPoolExecutor(max_workers=8)
     phases = {}
-    # 0. harness build -------------------------------------------------------------------------------
-    binary, build_s = vlib.harness_build("vh_refs")
-    phases["build"] = round(time.time() - t0, 1)
+    # 0. harness build (own thread: TLC works while cargo waits for the shared build lock) ------------
+    bpool = cf.ThreadPoolExecutor(max_workers=1)
+
+    def build():
+        r = vlib.harness_build("vh_refs")
+        phases["build"] = round(time.time() - t0, 1)
+        return r
+    fut_build = bpool.submit(build)
     wd = vlib.workdir(f"{prop}-traces")
     maxlen = 5 if quick else 6
     nshards = 4 if quick else 8
 
     # 3a. names: enumerate, record, validate (independent of everything else: started first) -----------
     def names_shard(k):
+        binary, _ = fut_build.result()
         tf = os.path.join(wd, f"names{k}.ndjson")
         vlib.harness_run(binary, ["--mode", "names", "--alphabet", json.dumps(ALPHABET), "--maxlen", maxlen,
                                   "--shard", k, "--shards", nshards, "--out", tf])
@@ -256,7 +290,8 @@ def run(prop, tier, replay):
                 ("s-all", cfg("all", 9, ALL_OPS, nclones=2, tags=("t1", "t2")), "num=2500", 2500)]
     fut_gen = {name: pool.submit(gen, name, c, sim) for name, c, sim, _ in gens}
 
-    fut_names = [pool.submit(names_shard, k) for k in range(nshards)]
+    npool = cf.ThreadPoolExecutor(max_workers=4)
+    fut_names = [npool.submit(names_shard, k) for k in range(nshards)]
 
     # 3b. histories ------------------------------------------------------------------------------------------
     scenarios, gen_info, exhaustive_hist = [], [], True
@@ -298,6 +333,8 @@ def run(prop, tier, replay):
             f.write(json.dumps(s) + "\n")
     hshards = 6 if quick else 8
     scratch = os.path.join(vlib.WORK, f"refs-scratch-{os.getpid()}")   # local file system (the tree listing walks it)
+
+    binary, build_s = fut_build.result()
 
     def hist_shard(k):
         tf = os.path.join(wd, f"hist{k}.ndjson")
